@@ -12,6 +12,7 @@ import copy
 import json
 
 from ..api import J, call
+from ..core import canon
 from .. import gen, jwegen as g, fingerprint as FP
 from ..jwsgen import alg_name, key_for, make_compact, make_json, make_7797_compact
 from ..trace import Tracer
@@ -140,6 +141,19 @@ ALLOW_LISTS_JWS = [None, [], ["HS256"], ["HS384"], ["RS256", "ES256"], ["none"],
                    ["ES512", "EdDSA", "ES256K", "PS384"], ["hs256"], ["HS512", "RS384", "RS512", "ES384", "PS256", "PS512"]]
 
 
+def as_container(allow, rng):
+    """the allow-list as the list it is documented to be, or (one call in four) as another container of the same names"""
+    if allow is None:
+        return None
+    r = rng.random()
+    if r < 0.75:
+        return copy.deepcopy(allow)
+    try:
+        return [tuple, set, frozenset][int((r - 0.75) * 12)](allow)
+    except TypeError:
+        return copy.deepcopy(allow)
+
+
 def jws_ops(mon: Mon, name, allow, mode, rng, forms=None):
     """all JWS operations for header alg = name under allow-list `allow`"""
     j = J.load()
@@ -155,7 +169,7 @@ def jws_ops(mon: Mon, name, allow, mode, rng, forms=None):
 
     def kw(cls=None):
         if mode == "algorithms":
-            return {"algorithms": copy.deepcopy(allow)}
+            return {"algorithms": as_container(allow, rng)}
         if allow is None:
             return {"registry": None}
         cls = cls or j.jws.JWSRegistry
@@ -242,7 +256,7 @@ def jwe_ops(mon: Mon, alg, enc, zipv, allow, mode, rng):
 
     def kw():
         if mode == "algorithms":
-            return {"algorithms": copy.deepcopy(allow)}
+            return {"algorithms": as_container(allow, rng)}
         if allow is None:
             return {"registry": None}
         if mode == "list+registry":
@@ -329,6 +343,76 @@ def history(mon: Mon, rng, length):
             fp0 = fp
 
 
+def shared_registry_history(mon: Mon, rng, rounds):
+    """registry objects of the caller that live across calls: a call that is also given algorithms= (and succeeds, or fails for a reason of its own)
+    leaves the registry as it was, and what the registry allows on its own afterwards is what it allowed before"""
+    ctx = mon.ctx
+    j = J.load()
+    hs, ec = gen.new_oct(256), gen.new_ec("P-256")
+    rk_hs, rk_ec = RefKey.from_jwk(hs), RefKey.from_jwk(ec)
+    payload = b'{"sub":"c05 shared registry"}'
+    tok = {"HS256": rjws.compact({"alg": "HS256"}, payload, rk_hs), "HS512": rjws.compact({"alg": "HS512"}, payload, rk_hs),
+           "ES256": rjws.compact({"alg": "ES256"}, payload, rk_ec)}
+    bad = {a: t[:-4] + ("AAAA" if not t.endswith("AAAA") else "BBBB") for a, t in tok.items()}
+    keyof = {"HS256": j.key(hs), "HS512": j.key(hs), "ES256": j.key(gen.public_jwk(ec))}
+    k128 = gen.new_oct(128)
+    jk128 = j.key(k128)
+    etok = {}
+    for alg, enc in (("A128KW", "A128GCM"), ("dir", "A128GCM"), ("A128KW", "A256GCM")):
+        kk = k128 if alg != "dir" else k128
+        etok[(alg, enc)] = g.make("compact", enc, [(alg, gen.new_oct(256) if (alg == "dir" and enc == "A256GCM") else kk, None)], payload).token
+    state = lambda r: canon({a: (sorted(v) if isinstance(v, dict) else v) for a, v in vars(r).items()})
+    for _ in range(rounds):
+        own = rng.choice([["HS256"], ["HS512"], ["HS256", "ES256"], ["ES256"]])
+        R = j.jws.JWSRegistry(algorithms=list(own))
+        own_e = rng.choice([["A128KW", "A128GCM"], ["dir", "A128GCM"], ["A128KW", "A128GCM", "A256GCM"]])
+        E = j.jwe.JWERegistry(algorithms=list(own_e))
+        s0, e0 = state(R), state(E)
+        for step in range(rng.randrange(2, 7)):
+            ctx.ev()
+            a = rng.choice(["HS256", "HS512", "ES256"])
+            other = rng.choice([["HS256"], ["HS512"], ["ES256"], ["HS256", "HS512", "ES256"], []])
+            t = rng.choice([tok, bad])[a]
+            f = rng.choice(["deserialize_compact", "validate", "jwt.decode", "serialize"])
+            if f == "deserialize_compact":
+                call(j.jws.deserialize_compact, t, keyof[a], algorithms=list(other), registry=R)
+            elif f == "validate":
+                call(lambda: j.jws.validate_compact(j.jws.extract_compact(t.encode()), keyof[a], algorithms=list(other), registry=R))
+            elif f == "jwt.decode":
+                call(j.jwt.decode, t, keyof[a], algorithms=list(other), registry=R)
+            else:
+                call(j.jws.serialize_compact, {"alg": a}, payload, rng.choice([keyof[a], j.key(gen.new_okp("Ed25519"))]), algorithms=list(other), registry=R)
+            ea, ee = rng.choice(list(etok))
+            et = etok[(ea, ee)]
+            if rng.random() < 0.5:
+                et = et[:-6] + "AAAAAA"
+            call(j.jwe.decrypt_compact, et, jk128, algorithms=rng.choice([["A128KW", "A128GCM"], ["dir", "A256GCM"], []]), registry=E)
+            ctx.count("calls")
+            ctx.count("shared_registry_calls")
+            case = {"registry_allows": own, "jwe_registry_allows": own_e, "call": f, "algorithms_argument": other, "token_alg": a}
+            if state(R) != s0:
+                ctx.violation("callers-registry-modified:jws", f"a {f} call given registry= and algorithms={other} left the caller's JWSRegistry changed: "
+                              f"allowed {own} -> {R.allowed}", case)
+                s0 = state(R)
+            if state(E) != e0:
+                ctx.violation("callers-registry-modified:jwe", f"a decrypt_compact call given registry= and algorithms= left the caller's JWERegistry changed: "
+                              f"allowed {own_e} -> {E.allowed}", case)
+                e0 = state(E)
+            # the registry on its own
+            b = rng.choice(["HS256", "HS512", "ES256"])
+            o = call(j.jws.deserialize_compact, tok[b], keyof[b], registry=R)
+            ctx.nontrivial(("shared-reg", tuple(own), b, step))
+            if (b in own) != o.ok:
+                ctx.violation("registry-alone-differs-after-history:jws", f"registry allowing {own}: a valid {b} token is {'accepted' if o.ok else 'refused'} "
+                              f"after earlier calls that were also given algorithms= ({o.exc!r})", case)
+            eb = rng.choice(list(etok))
+            if eb[0] != "dir" or eb[1] == "A128GCM":
+                o = call(j.jwe.decrypt_compact, etok[eb], jk128, registry=E)
+                if (eb[0] in own_e and eb[1] in own_e) != o.ok:
+                    ctx.violation("registry-alone-differs-after-history:jwe", f"registry allowing {own_e}: a valid {eb} token is {'accepted' if o.ok else 'refused'} "
+                                  f"after earlier calls that were also given algorithms= ({o.exc!r})", case)
+
+
 def run_shard(ctx):
     J.load()
     rng = ctx.rng
@@ -366,6 +450,7 @@ def run_shard(ctx):
                 if k % ctx.nshards == ctx.shard and not (z is None):
                     jwe_ops(mon, "A128KW", "A128GCM", copy.deepcopy(z), copy.deepcopy(allow), rng.choice(["algorithms", "registry", "list+registry"]), rng)
         # histories
+        shared_registry_history(mon, rng, 25 if ctx.tier == "quick" else 400)
         history(mon, rng, 400 if ctx.tier == "quick" else 2000)
         if ctx.tier == "thorough":
             while not ctx.out_of_time():
